@@ -161,24 +161,15 @@ def make_bz2(rng, payload, level=None):
 
 
 def make_xz(rng, payload):
-    mode = rng.randrange(3)
-    if mode == 0:
+    # (the delta filter is not implemented by libxmp's xz decoder: such streams are refused as a whole)
+    if rng.randrange(2) == 0:
         data = lzma.compress(payload, format=lzma.FORMAT_XZ, check=lzma.CHECK_CRC32, preset=rng.randrange(7))
         var = "preset"
-    elif mode == 1:
+    else:
         filt = [{"id": lzma.FILTER_LZMA2, "dict_size": 1 << rng.randint(12, 20), "lc": rng.randint(0, 3), "lp": 0,
                  "pb": rng.randint(0, 2)}]
         data = lzma.compress(payload, format=lzma.FORMAT_XZ, check=lzma.CHECK_CRC32, filters=filt)
         var = "filters"
-    else:
-        filt = [{"id": lzma.FILTER_DELTA, "dist": rng.randint(1, 4)},
-                {"id": lzma.FILTER_LZMA2, "preset": rng.randrange(4)}]
-        try:
-            data = lzma.compress(payload, format=lzma.FORMAT_XZ, check=lzma.CHECK_CRC32, filters=filt)
-            var = "delta"
-        except lzma.LZMAError:
-            data = lzma.compress(payload, format=lzma.FORMAT_XZ, check=lzma.CHECK_CRC32)
-            var = "preset"
     n = len(data)
     bsz = (struct.unpack("<I", data[n - 8:n - 4])[0] + 1) * 4     # index size incl. its CRC
     idx = n - 12 - bsz
@@ -317,13 +308,16 @@ def make_lzx_stored(rng, payload):
 
 SEEDS = [("arc", "arc-method2", True), ("arc", "arc-method3", True), ("arc", "arc-method4", True),
          ("arc", "arc-method8-rle", True), ("arc", "arc-method9", True), ("arcfs", "arcfsdata", True),
-         ("lzx", "lzxdata", False), ("lzx", "lzxstore", False), ("lzx", "lzxmerge", False),
+         ("lzx", "lzxdata", False), ("lzx", "lzxstore", False),
+         # two loadable members: damage to the first entry legitimately selects the second -> gate correspondence only
+         ("lzx", "lzxmerge", False, "gates-only"),
          ("zip", "ponylips.64.zip", False), ("gzip", "adlibsp.rad.gz", False)]
 
 
 def seed_archives(max_size=400000):
     out = []
-    for fmt, name, c16 in SEEDS:
+    for ent in SEEDS:
+        fmt, name, c16 = ent[:3]
         p = os.path.join(vlib.REPO, "test-dev", "data", name)
         try:
             data = open(p, "rb").read()
@@ -331,7 +325,15 @@ def seed_archives(max_size=400000):
             continue
         if len(data) > max_size:
             continue
-        out.append(_arch(fmt, "repo:" + name, name, data, None, {}, crc16=c16))
+        a = _arch(fmt, "repo:" + name, name, data, None, {}, crc16=c16)
+        a["oracle"] = len(ent) < 4
+        if fmt == "arcfs" and len(data) >= 132 and data[96 + 26] == 0 and data[96 + 27] == 0:
+            a["oracle"] = False      # stored CRC 0 = unchecked by design (arcfs.c): carries no check
+        if fmt == "arcfs":
+            a["crc_at"] = 96 + 26
+        if fmt == "arc":
+            a["crc_at"] = 23
+        out.append(a)
     return out
 
 
